@@ -35,7 +35,12 @@ Expect(s, ev) ==
     [] ev.op = "sm4.scribblekey" -> [st |-> s, ok |-> TRUE, why |-> ""]
     [] ev.op = "sm4.crypt" ->
          LET rk == IF ev.dec THEN S4!Reverse(s[ev.h].rk) ELSE s[ev.h].rk
-             exp == S4!CryptWithKeys(rk, ev.src)
+             \* cipher.Block: exactly the first block of src is processed into the first block of dst;
+             \* whatever else the two slices hold stays (in place: the rest of src; otherwise the 0xA5 fill)
+             one == S4!CryptWithKeys(rk, SubSeq(ev.src, 1, 16))
+             rest == IF ev.inplace THEN SubSeq(ev.src, 17, Len(ev.src))
+                     ELSE [i \in 1..(Len(ev.out) - 16) |-> 165]
+             exp == one \o rest
          IN [st |-> s,
              ok |-> /\ ev.panic = "" /\ ev.out = exp
                     /\ (ev.inplace \/ ev.src_after = ev.src),
